@@ -113,6 +113,13 @@ def h_hist(sym, params):
     now = [sym.real("t0", lo=0)]
     b = CircuitBreaker(failure_threshold=thr, window_s=window, recovery_timeout_s=recovery, trip_on=trip,
                        class_thresholds=class_thr, clock=lambda: now[0])
+    if trip is not None:
+        # the caller's set is configuration, not breaker state: a sibling breaker built from the same set object (with a
+        # class threshold on yet another class) must not change this breaker, and the set itself must stay as given
+        given = set(trip)
+        CircuitBreaker(failure_threshold=1, window_s=window, recovery_timeout_s=recovery, trip_on=trip,
+                       class_thresholds={EC.RATE_LIMIT: 1, EC.PERMANENT: 1}, clock=lambda: now[0])
+        trip = given  # the reference goes by what this breaker was configured with
     counted = (set(trip) if trip is not None else {EC.TRANSIENT, EC.SERVER_ERROR}) | set(class_thr)
     ref = RefBreaker(thr, class_thr, counted, window, recovery)
     pins = params.get("pin_ops", [])
